@@ -82,8 +82,10 @@ def wfRec (m : Mode) (a : Arr) (i : Nat) : Bool :=
    | some p => !isRoot m i && decide (p < i) && decide (i ≤ p + sz a p) &&
        -- the parent is the *nearest* enclosing interval
        (List.range i).all (fun q => !(decide (p < q)) || decide (q + sz a q < i)) &&
-       -- owner of an attribute / namespace record is an element
-       (!(isAN a i) || kd a p == .elem)) &&
+       -- owner of an attribute / namespace record is an element, and only attribute /
+       -- namespace records stand between the two
+       (!(isAN a i) || kd a p == .elem) &&
+       (!(isAN a i) || (List.range i).all (fun q => !(decide (p < q)) || isAN a q))) &&
   -- subtree intervals nest
   (List.range i).all (fun q => !(decide (i ≤ q + sz a q)) || decide (i + sz a i ≤ q + sz a q)) &&
   -- only documents and elements have content; a document record is record 0
